@@ -327,8 +327,10 @@ impl Rt {
             // a failed send reverts everything the callee did
             !(r.is_ok() && r->Ok_0.exit_code.value == 0) ==> final(self).balance == old(self).balance
                 && final(self).state_id == old(self).state_id && final(self).events == old(self).events && final(self).state_root == old(self).state_root,
-            // a value transfer or a mutating call cannot succeed from a read-only activation
-            (old(self).read_only && (value@ != 0 || flags.bits % 2 == 0) && method != METHOD_SEND) ==> !(r.is_ok() && r->Ok_0.exit_code.value == 0),
+            // from a read-only activation the FVM runs every callee read-only, whatever the flag says: a value transfer cannot succeed, and
+            // whatever succeeds leaves this actor's state as it was (an un-flagged send CAN succeed there: the callee just runs read-only)
+            (old(self).read_only && value@ != 0) ==> !(r.is_ok() && r->Ok_0.exit_code.value == 0),
+            old(self).read_only ==> final(self).state_id == old(self).state_id && final(self).state_root == old(self).state_root,
     { unimplemented!() }
     #[verifier::external_body]
     pub fn send_simple(&mut self, to: &Address, method: MethodNum, params: Option<IpldBlock>, value: TokenAmount)
